@@ -34,7 +34,7 @@ fn run_field<F: FL>(ctx: &Ctx, rec: &mut Rec) {
     par(rec, |w, nw, rec| {
         let mut rng = rng_for(ctx.seed, P, w, n as u64);
         let mut vals = zoo.clone();
-        vals.extend(field_random(f, &mut rng, ctx.scale(6000, 150_000)));
+        vals.extend(field_random(f, &mut rng, ctx.scale(30_000, 300_000)));
         for (i, (v, class)) in vals.iter().enumerate() {
             if i % nw != w {
                 continue;
@@ -61,7 +61,7 @@ fn run_field<F: FL>(ctx: &Ctx, rec: &mut Rec) {
 
     // (2) checked parsers accept exactly the integers below p; reducers = integer mod p
     let mut srng = rng_for(ctx.seed, P, 999, n as u64);
-    let strings = bytes_zoo(f, &mut srng, ctx.scale(15_000, 300_000));
+    let strings = bytes_zoo(f, &mut srng, ctx.scale(60_000, 600_000));
     for (_, cl) in strings.iter() {
         rec.declare_class(&format!("{}:{}", F::NAME, cl));
     }
@@ -124,7 +124,7 @@ fn run_field<F: FL>(ctx: &Ctx, rec: &mut Rec) {
     // (3) ordering = integer ordering; hashing consistent with equality; integer conversions
     par(rec, |w, nw, rec| {
         let mut rng = rng_for(ctx.seed, P, w, 1000 + n as u64);
-        let reps = ctx.scale(80_000, 1_000_000);
+        let reps = ctx.scale(400_000, 2_000_000);
         for rep in 0..reps {
             if rep % nw != w {
                 continue;
@@ -245,7 +245,7 @@ fn ark_extras<F: FL>(ctx: &Ctx, rec: &mut Rec) {
     par(rec, |w, nw, rec| {
         let mut rng = rng_for(ctx.seed, P, w, 3000 + n as u64);
         let mut vals = zoo.clone();
-        vals.extend(field_random(f, &mut rng, ctx.scale(400, 40_000)));
+        vals.extend(field_random(f, &mut rng, ctx.scale(3000, 60_000)));
         for (i, (v, class)) in vals.iter().enumerate() {
             if i % nw != w {
                 continue;
